@@ -352,6 +352,22 @@ func (s *Script) Define(hint string, t Term) Term {
 	return Term{name, t.Sort}
 }
 
+// Name introduces a constant with a defining equation (never a macro), for
+// terms that occur in quantifier patterns: heap states and merged values.
+func (s *Script) Name(hint string, t Term) Term {
+	if s.Quiet {
+		return t
+	}
+	if !strings.Contains(t.S, "(") {
+		return t
+	}
+	s.nfresh++
+	name := fmt.Sprintf("%s!%d", sanitize(hint), s.nfresh)
+	s.Lines = append(s.Lines, Line{LDecl, fmt.Sprintf("(declare-const %s %s)", name, t.Sort), ""})
+	s.Lines = append(s.Lines, Line{LAssume, fmt.Sprintf("(assert (= %s %s))", name, t.S), ""})
+	return Term{name, t.Sort}
+}
+
 func (s *Script) Assume(t Term, note string) {
 	if t.S == "true" || s.Quiet {
 		return
